@@ -1,0 +1,123 @@
+//! Verification hooks (cargo feature `verif-hooks`, off by default).
+//!
+//! Observation points for external runtime monitors. Nothing here changes what
+//! the library computes: every hook forwards a description of what just happened
+//! to a per-thread sink installed by the monitor, and is a thread-local flag test
+//! when no sink is installed. State is thread-local on purpose, so a monitor can
+//! never couple two evaluators running on different threads.
+
+use std::cell::{Cell, RefCell};
+
+#[derive(Debug, Clone)]
+pub enum Event<'a> {
+    /// `MadeHand::from([Card; 7])` is about to read one lookup table slot.
+    TableLookup { flush: bool, slot: u16 },
+    /// `FlopExhaustiveEvaluatorIterator::next()` considered one deal (one
+    /// turn/river position and one odometer state), blocked or not.
+    Deal {
+        turn_index: usize,
+        river_index: usize,
+        player_indexes: &'a [usize],
+        /// the evaluator's own verdict before the board/hole-card test of `Showdown::new`
+        materialized: bool,
+        /// nesting depth of `next()` frames on this thread
+        depth: u32,
+        /// address of a local of the hook's frame, i.e. (just below) the `next()` frame
+        stack_addr: usize,
+    },
+}
+
+thread_local! {
+    static ENABLED: Cell<bool> = const { Cell::new(false) };
+    static DEPTH: Cell<u32> = const { Cell::new(0) };
+    static SINK: RefCell<Option<Box<dyn FnMut(&Event)>>> = const { RefCell::new(None) };
+    static INDEXES: RefCell<Vec<usize>> = const { RefCell::new(Vec::new()) };
+}
+
+/// Installs (or removes) the calling thread's event sink.
+pub fn set_sink(sink: Option<Box<dyn FnMut(&Event)>>) {
+    ENABLED.with(|e| e.set(sink.is_some()));
+    SINK.with(|s| *s.borrow_mut() = sink);
+}
+
+/// True when the calling thread has a sink installed.
+#[inline]
+pub fn enabled() -> bool {
+    ENABLED.with(|e| e.get())
+}
+
+#[inline]
+fn emit(event: &Event) {
+    SINK.with(|s| {
+        if let Ok(mut sink) = s.try_borrow_mut() {
+            if let Some(f) = sink.as_mut() {
+                f(event);
+            }
+        }
+    });
+}
+
+#[inline]
+pub fn on_table_lookup(flush: bool, slot: u16) {
+    if ENABLED.with(|e| e.get()) {
+        emit(&Event::TableLookup { flush, slot });
+    }
+}
+
+#[inline]
+pub fn on_deal<I: Iterator<Item = usize>>(
+    turn_index: usize,
+    river_index: usize,
+    player_indexes: I,
+    materialized: bool,
+) {
+    if ENABLED.with(|e| e.get()) {
+        on_deal_slow(turn_index, river_index, player_indexes, materialized);
+    }
+}
+
+#[inline(never)]
+fn on_deal_slow<I: Iterator<Item = usize>>(
+    turn_index: usize,
+    river_index: usize,
+    player_indexes: I,
+    materialized: bool,
+) {
+    let probe = 0_u8;
+    let stack_addr = std::hint::black_box(&probe) as *const u8 as usize;
+
+    INDEXES.with(|v| {
+        if let Ok(mut v) = v.try_borrow_mut() {
+            v.clear();
+            v.extend(player_indexes);
+
+            emit(&Event::Deal {
+                turn_index,
+                river_index,
+                player_indexes: &v,
+                materialized,
+                depth: DEPTH.with(|d| d.get()),
+                stack_addr,
+            });
+        }
+    });
+}
+
+/// RAII counter of live `next()` frames on the calling thread.
+pub struct NextGuard;
+
+impl NextGuard {
+    #[inline]
+    pub fn enter() -> NextGuard {
+        DEPTH.with(|d| d.set(d.get() + 1));
+
+        NextGuard
+    }
+}
+
+impl Drop for NextGuard {
+    #[inline]
+    fn drop(&mut self) {
+        DEPTH.with(|d| d.set(d.get().saturating_sub(1)));
+    }
+}
